@@ -357,27 +357,27 @@ func main() {
 	wall := time.Since(start).Seconds()
 	distinct := len(fps)
 	cov := map[string]any{
-		"evaluations":         agg.Runs,
-		"distinct_nontrivial": distinct,
-		"nontrivial_runs":     agg.NonTrivial,
-		"rule":                spec.Rule,
-		"samples":             agg.Samples,
-		"per_scenario_runs":   agg.PerScenario,
-		"scheduler_steps":     agg.Steps,
-		"simulated_seconds":   agg.SimSeconds,
-		"runs_per_hour":       float64(agg.Runs) / wall * 3600,
-		"counters":            agg.Counters,
-		"faults_fired":        pick(agg.Counters, "fault."),
-		"probes":              pick(agg.Counters, "probe."),
-		"enumerated":          pick(agg.Counters, "enum."),
-		"zero_probes":         zeroProbes(spec, agg.Counters),
-		"real_components":     spec.Real,
-		"stub_components":     spec.Stub,
-		"workers":             *workers,
-		"seed_base":           seed,
-		"reported":            reported,
+		"evaluations":                    agg.Runs,
+		"distinct_nontrivial":            distinct,
+		"nontrivial_runs":                agg.NonTrivial,
+		"rule":                           spec.Rule,
+		"samples":                        agg.Samples,
+		"per_scenario_runs":              agg.PerScenario,
+		"scheduler_steps":                agg.Steps,
+		"simulated_seconds":              agg.SimSeconds,
+		"runs_per_hour":                  float64(agg.Runs) / wall * 3600,
+		"counters":                       agg.Counters,
+		"faults_fired":                   pick(agg.Counters, "fault."),
+		"probes":                         pick(agg.Counters, "probe."),
+		"enumerated":                     pick(agg.Counters, "enum."),
+		"zero_probes":                    zeroProbes(spec, agg.Counters),
+		"real_components":                spec.Real,
+		"stub_components":                spec.Stub,
+		"workers":                        *workers,
+		"seed_base":                      seed,
+		"reported":                       reported,
 		"other_property_violations_seen": agg.OtherProps,
-		"troubles":            troubles,
+		"troubles":                       troubles,
 	}
 	ev := evidence{PropertyID: prop, Tier: *tier, Seed: seed, Level: spec.Level, Coverage: cov, Assumptions: spec.Assumptions, WallS: wall, Violations: violations}
 	os.MkdirAll(filepath.Join(root, "evidence"), 0o755)
